@@ -428,6 +428,13 @@ def show_term(t):
             return repr(t[1])
         if h == 'state':
             return '$state'
+        if h == 'index':
+            return show_term(t[1]) + '[' + show_term(t[2]) + ']'
+        if h == 'adt' and len(t) > 3 and str(t[1]).startswith('std::ops::Range'):
+            d = dict(t[3])
+            return (show_term(d['start']) if 'start' in d else '') + '..' + (show_term(d['end']) if 'end' in d else '')
+        if h == 'ite':
+            return 'ite(' + show(t[1]) + ', ' + show_term(t[2]) + ', ' + show_term(t[3]) + ')'
         if h == 'call':
             return str(t[1]).split('::')[-1] + '(' + ', '.join(show_term(x) for x in t[2:]) + ')'
         if h == 'is':
